@@ -228,6 +228,7 @@ type RefreshView struct {
 // Event is a deletion notification.
 type Event struct {
 	Seq    uint64
+	End    uint64 // atomic events: when the table computation that invoked the handler completed
 	Atomic bool
 	K, V   int
 	Cause  otter.DeletionCause
@@ -286,6 +287,7 @@ type Runner struct {
 	OnAtomic     func(e Event)
 	OnAsync      func(e Event)
 	bgExecPanics []any
+	onQueue      func()
 }
 
 func (r *Runner) fault(name string) { r.Faults[name]++ }
@@ -381,7 +383,12 @@ func NewRunner(w *simrt.World, cfg *Cfg) *Runner {
 	case "sync":
 		o.Executor = func(fn func()) { r.runExec(fn) }
 	case "queued":
-		o.Executor = func(fn func()) { r.Queue = append(r.Queue, fn) }
+		o.Executor = func(fn func()) {
+			r.Queue = append(r.Queue, fn)
+			if r.onQueue != nil {
+				r.onQueue()
+			}
+		}
 	case "default":
 		// nil: otter's own `go fn()`
 	default:
@@ -393,7 +400,11 @@ func NewRunner(w *simrt.World, cfg *Cfg) *Runner {
 	}
 	o.OnAtomicDeletion = func(e otter.DeletionEvent[int, int]) {
 		ev := r.mkEvent(e, true)
+		idx := len(r.Events)
 		r.Events = append(r.Events, ev)
+		// the removal takes effect inside the table computation that is running this handler;
+		// that computation ends with the release of the bucket lock
+		simrt.OnNextUnlock(func() { r.Events[idx].End = r.W.Tick() })
 		if r.OnAtomic != nil {
 			r.OnAtomic(ev)
 		}
